@@ -60,15 +60,6 @@ example : let L : Layout := ⟨14, true, none, true, .le⟩
     L.Valid ∧ L.tif = .le ∧ rs ≠ [] ∧ (∀ r ∈ rs, r ≠ []) ∧ fileSize L rs < 4294967296 ∧ numPRs L rs = 4 := by decide
 
 
-/-- what a history may contain: seeks go to the reported start position of a record (or to the end position) -/
-def HistOK (rs : List Bytes) (ops : List Op) : Prop := ∀ op ∈ ops, ∀ i, op = .seek i → i ≤ rs.length
-
-theorem histOK_opOK {rs : List Bytes} {ops : List Op} (h : HistOK rs ops) : ∀ op ∈ ops, OpOK rs op := by
-  intro op hop
-  cases op with
-  | seek i => exact h _ hop i rfl
-  | _ => trivial
-
 /-- **read_refines** (simulation, unbounded in records, lengths, layout and history length).
 Take any valid layout (all trailer combinations, TIF off / normal / byte-reversed), any list of non-empty logical
 records, and the LIS-79 encoding `encode L rs` of it. For EVERY history of operations
